@@ -120,7 +120,8 @@ def check_krum(ctx: Ctx, dtype):
         m = rng.randint(max(f + 3, 26), 40)
     else:
         m = rng.randint(f + 3, f + 7)
-    k = rng.randint(1, max(1, m - f - 2))
+    # every legal selection count (the library only requires k <= m): also k > m - f, where more rows are averaged than can be honest
+    k = rng.randint(1, max(1, m - f - 2)) if rng.random() < 0.6 else rng.randint(1, m)
     n = rng.choice([1, 2, 3, 4]) if not big else rng.choice([4, 8])
     H = honest_cluster(rng, m, n, spread=rng.choice([2, 5, 9]),
                        center=[rng.choice([-1, 1]) * rng.randint(900, 4000) for _ in range(n)] if big else None)
